@@ -43,6 +43,9 @@ def cases(draw):
         behaviour[u] = {"mode": draw(st.sampled_from(["ok", "ok", "fail-once", "fail-always"])),
                         "exc": draw(st.sampled_from(sorted(EXC)))}
     us = sorted(docs)
+    if len(us) >= 2 and draw(st.integers(0, 3)) == 0 and isinstance(docs[us[0]], dict):
+        # a copy that still carries the id of the place it was copied from -- where another document lives
+        docs[us[0]][impl.IDKW[d]] = us[1]
     for i, u in enumerate(us):
         # a reference from inside one retrieved document to the next one: a failure can now strike while the
         # first document's scope is in force
@@ -103,6 +106,9 @@ class CountingHandler(object):
         self.case = case
         self.calls = []          # (uri, outcome)
         self.log = log
+
+    def __len__(self):
+        return len(self.calls)          # a recording fetcher that is "empty" (falsy) until its first call: still a handler
 
     def __call__(self, uri):
         u = uri.split("#")[0]
